@@ -49,7 +49,7 @@ def configs(thorough):
 
 
 def main(pid):
-    chk = Check(pid, TECH)
+    chk = Check(pid, TECH, need_bin=True)
     eng = chk.eng
     install_stubs(eng)
     eng.select_orders = 'all' if chk.thorough() else 'first'
@@ -477,6 +477,11 @@ def main(pid):
                 run_script(sname, cfg)
         from lib.scenario import Scenario
         scn = Scenario(log)
+        if not only or only == 'sched' or 'builder::run' in only:
+            from specs import schedcheck
+            schedcheck.explore(chk, pid, scn)
+        global sched_replay
+        sched_replay = lambda c: schedcheck.replay_cand(chk, scn, c)
         global cheat_replay
         cheat_replay = cheat_replay_factory(scn)
         try:
@@ -660,6 +665,8 @@ def cheat_replay_factory(scn):
 
 def make_replay(rep):
     def replay(c):
+        if c.get('kind') == 'sched':
+            return sched_replay(c)
         if c.get('kind') == 'transition':
             return False, 'transition counterexamples are replayed through Kani only'
         w = c['witness']
